@@ -30,6 +30,17 @@ def main(argv=None):
     except ValueError:
         seed = 0
 
+    budget = float(os.environ.get("PBVERIF_BUDGET_S", "420" if args.tier == "quick" else "3000"))
+
+    def _watchdog():
+        print(f"ANALYSIS-ERROR: time budget of {budget:.0f}s exceeded for {pid} [{args.tier}]")
+        sys.stdout.flush()
+        os._exit(2)
+    import threading
+    wd = threading.Timer(budget, _watchdog)
+    wd.daemon = True
+    wd.start()
+
     def go():
         if pid not in CLAIMED:
             print(f"ANALYSIS-ERROR: no check for {pid}")
